@@ -51,7 +51,7 @@ enum
 	K_DEL,
 	K_SHRINK
 };
-#define NIDX 7
+#define NIDX 9
 #define NDI 5
 #define NDN 5
 static size_t idx_arg(const struct st *s, int k)
@@ -65,7 +65,10 @@ static size_t idx_arg(const struct st *s, int k)
 	case 3: return len + 1;
 	case 4: return len + 3;
 	case 5: return SIZE_MAX - 1;
-	default: return SIZE_MAX;
+	case 6: return SIZE_MAX;
+	/* indices that pass every arithmetic guard, so that the refusal comes from the allocator itself */
+	case 7: return SIZE_MAX / sizeof(void *) - 1;
+	default: return ((size_t)1 << 40) + 5;
 	}
 }
 static size_t deli_arg(const struct st *s, int k)
@@ -95,7 +98,7 @@ static size_t deln_arg(const struct st *s, size_t i, int k)
 static void opname(int op, sb_t *o)
 {
 	int kind = op >> 8, a = op & 255;
-	static const char *ix[] = {"0", "len-1", "len", "len+1", "len+3", "SIZE_MAX-1", "SIZE_MAX"};
+	static const char *ix[] = {"0", "len-1", "len", "len+1", "len+3", "SIZE_MAX-1", "SIZE_MAX", "SIZE_MAX/8-1", "2^40+5"};
 	static const char *dn[] = {"0", "1", "len-i", "len-i+1", "SIZE_MAX"};
 	static const char *di[] = {"0", "len-1", "len", "len+1", "SIZE_MAX"};
 	switch (kind)
